@@ -11,6 +11,67 @@ pub open spec fn enc32(x: u32) -> Seq<u8> {
     seq![(x / 16777216) as u8, ((x / 65536) % 256) as u8, ((x / 256) % 256) as u8, (x % 256) as u8]
 }
 
+// bit-level facts (bit_vector back end: independent of the surrounding context)
+pub proof fn lemma_bv16(a: u8, b: u8)
+    ensures ({ let x = ((a as u16) * 256 + (b as u16)) as u16; (x / 256) as u8 == a && (x % 256) as u8 == b })
+{
+    let a16 = a as u16; let b16 = b as u16;
+    let x = (a16 * 256 + b16) as u16;
+    assert(a16 * 256 + b16 < 0x1_0000) by (nonlinear_arith) requires a16 < 256, b16 < 256;
+    assert((x / 256) == a16 && (x % 256) == b16) by (bit_vector) requires x == a16 * 256 + b16, a16 < 256, b16 < 256;
+}
+pub proof fn lemma_bv16_inv(x: u16)
+    ensures ((((x / 256) as u8) as u16) * 256 + (((x % 256) as u8) as u16)) as u16 == x
+{
+    let a = x / 256; let b = x % 256;
+    assert(a < 256 && b < 256 && a * 256 + b == x) by (bit_vector) requires a == x / 256, b == x % 256;
+}
+pub proof fn lemma_bv32(a: u8, b: u8, c: u8, d: u8)
+    ensures ({ let x = ((a as u32) * 16777216 + (b as u32) * 65536 + (c as u32) * 256 + (d as u32)) as u32;
+       (x / 16777216) as u8 == a && ((x / 65536) % 256) as u8 == b && ((x / 256) % 256) as u8 == c && (x % 256) as u8 == d })
+{
+    let a32 = a as u32; let b32 = b as u32; let c32 = c as u32; let d32 = d as u32;
+    let x = (a32 * 16777216 + b32 * 65536 + c32 * 256 + d32) as u32;
+    assert(a32 * 16777216 + b32 * 65536 + c32 * 256 + d32 < 0x1_0000_0000) by (nonlinear_arith)
+        requires a32 < 256, b32 < 256, c32 < 256, d32 < 256;
+    assert((x / 16777216) == a32 && ((x / 65536) % 256) == b32 && ((x / 256) % 256) == c32 && (x % 256) == d32) by (bit_vector)
+        requires x == a32 * 16777216 + b32 * 65536 + c32 * 256 + d32, a32 < 256, b32 < 256, c32 < 256, d32 < 256;
+}
+pub proof fn lemma_bv32_inv(x: u32)
+    ensures ((((x / 16777216) as u8) as u32) * 16777216 + ((((x / 65536) % 256) as u8) as u32) * 65536
+             + ((((x / 256) % 256) as u8) as u32) * 256 + (((x % 256) as u8) as u32)) as u32 == x
+{
+    let a = x / 16777216; let b = (x / 65536) % 256; let c = (x / 256) % 256; let d = x % 256;
+    assert(a < 256 && b < 256 && c < 256 && d < 256 && a * 16777216 + b * 65536 + c * 256 + d == x) by (bit_vector)
+       requires a == x / 16777216, b == (x / 65536) % 256, c == (x / 256) % 256, d == x % 256;
+}
+pub proof fn lemma_enc16(b: Seq<u8>, o: int) requires 0 <= o, o + 2 <= b.len() ensures enc16(be16(b, o)) == b.subrange(o, o + 2) {
+    lemma_bv16(b[o], b[o + 1]);
+    assert(enc16(be16(b, o)) =~= b.subrange(o, o + 2));
+}
+pub proof fn lemma_enc32(b: Seq<u8>, o: int) requires 0 <= o, o + 4 <= b.len() ensures enc32(be32(b, o)) == b.subrange(o, o + 4) {
+    lemma_bv32(b[o], b[o + 1], b[o + 2], b[o + 3]);
+    assert(enc32(be32(b, o)) =~= b.subrange(o, o + 4));
+}
+pub proof fn lemma_dec16(x: u16) ensures be16(enc16(x), 0) == x, enc16(x).len() == 2 { lemma_bv16_inv(x); }
+pub proof fn lemma_dec32(x: u32) ensures be32(enc32(x), 0) == x, enc32(x).len() == 4 { lemma_bv32_inv(x); }
+pub proof fn lemma_seq_join(b: Seq<u8>, a: int, m: int, c: int)
+    requires 0 <= a <= m <= c <= b.len() ensures b.subrange(a, m) + b.subrange(m, c) == b.subrange(a, c)
+{ assert(b.subrange(a, m) + b.subrange(m, c) =~= b.subrange(a, c)); }
+pub proof fn lemma_seq_split_eq(x1: Seq<u8>, y1: Seq<u8>, x2: Seq<u8>, y2: Seq<u8>)
+    requires x1 + y1 == x2 + y2, x1.len() == x2.len() ensures x1 == x2, y1 == y2
+{
+    let z1 = x1 + y1;
+    let z2 = x2 + y2;
+    assert(z1.len() == x1.len() + y1.len() && z2.len() == x2.len() + y2.len());
+    assert forall|i: int| 0 <= i < x1.len() implies x1[i] == x2[i] by { assert(z1[i] == x1[i]); assert(z2[i] == x2[i]); }
+    assert(x1 =~= x2);
+    assert forall|i: int| 0 <= i < y1.len() implies y1[i] == y2[i] by {
+        assert(z1[x1.len() + i] == y1[i]); assert(z2[x2.len() + i] == y2[i]);
+    }
+    assert(y1 =~= y2);
+}
+
 /// a fixed-width big-endian primitive: Err when fewer than `w` bytes, else consumes exactly `w`
 pub open spec fn fixed_post<'a, T>(i: &'a [u8], r: IResult<&'a [u8], T>, w: int) -> bool {
     if i@.len() < w { r is Err } else { r is Ok && r->Ok_0.0@ == i@.subrange(w, i@.len() as int) }
@@ -100,4 +161,27 @@ pub mod nom_paths {
     // so that `nom::multi::count`, `nom::combinator::map` in expanded code resolve
 }
 
+} // verus!
+// ---- R1 wrappers: uN::to_be_bytes / Ipv4Addr::octets (bodies ARE the std calls) -----------
+verus! {
+pub trait VfBe8: Sized { spec fn vf_enc(self) -> Seq<u8>; fn vf_to_be_bytes(self) -> (r: [u8; 1]) ensures r@ == self.vf_enc(); }
+pub trait VfBe16: Sized { spec fn vf_enc(self) -> Seq<u8>; fn vf_to_be_bytes(self) -> (r: [u8; 2]) ensures r@ == self.vf_enc(); }
+pub trait VfBe32: Sized { spec fn vf_enc(self) -> Seq<u8>; fn vf_to_be_bytes(self) -> (r: [u8; 4]) ensures r@ == self.vf_enc(); }
+pub trait VfOctets: Sized { spec fn vf_oct(self) -> Seq<u8>; fn vf_octets(&self) -> (r: [u8; 4]) ensures r@ == self.vf_oct(); }
+impl VfBe8 for u8 {
+    open spec fn vf_enc(self) -> Seq<u8> { seq![self] }
+    #[verifier::external_body] fn vf_to_be_bytes(self) -> (r: [u8; 1]) { self.to_be_bytes() }
+}
+impl VfBe16 for u16 {
+    open spec fn vf_enc(self) -> Seq<u8> { enc16(self) }
+    #[verifier::external_body] fn vf_to_be_bytes(self) -> (r: [u8; 2]) { self.to_be_bytes() }
+}
+impl VfBe32 for u32 {
+    open spec fn vf_enc(self) -> Seq<u8> { enc32(self) }
+    #[verifier::external_body] fn vf_to_be_bytes(self) -> (r: [u8; 4]) { self.to_be_bytes() }
+}
+impl VfOctets for Ipv4Addr {
+    open spec fn vf_oct(self) -> Seq<u8> { ipv4_octets(self) }
+    #[verifier::external_body] fn vf_octets(&self) -> (r: [u8; 4]) { self.octets() }
+}
 } // verus!
